@@ -79,3 +79,34 @@ Theorem C02_graph_loads_partial :
     cwp fl (cg_step d GoReload) sp (fun r sp' => exists d' s', r = CrOk (d', GbUnit) /\ grep (hp sp') d' s' a).
 Proof. exact graph_loads. Qed.
 Print Assumptions C02_graph_loads_partial.
+
+(* ======================= the database level: the WHOLE database loads =======================
+   (models, the relation stored_db and the loader load_db: see the L3 section of Props/C05.v; theories/StoredDb*.v)
+   In EVERY state of the record store in which the whole database is represented (stored_db: root record -> graph,
+   two alias tables, index vector with one multi-map per index, values vector with one DbVec<DbKeyValue> per element)
+   the composition of ALL the loaders — what DbImpl::new does, followed by reading every component to the end — succeeds
+   and returns the represented database (up to the order a hash table does not keep, sd_eqv); the same for the loader
+   program run on the model of storage.rs.  This closes item (2) of the comment above for the LOADING direction.
+   STILL _partial: (1) as above (the record map inside an operation cut by a crash: C03 + C01), and (3) that stored_db
+   holds at every flush point of a database history — the simulation of db.rs's mutations
+   (C05_db_operations_preserve_stored_db, stated in Props/C05.v as the missing link) — both covered by the crash harness
+   and by the `stored` correspondence of C05 (load_db on the raw records of real files). *)
+From Agdb Require Import Bytes Records DbModel StorageRefine StorageProofs StoredDb StoredDbRep StoredDbRun StoredDbLoad StoredDbProofs StoredDbExample.
+
+Theorem C02_db_loads_partial :
+  (forall (m : vmap) (root : N) (d : db),
+     stored_db (m_get m) root d -> exists d', load_db m root = Some d' /\ sd_eqv d d' /\ undo d' = []) /\
+  (forall (ops : store_ops cdata) (fl : bool), StorageProofs.kind ops fl ->
+   forall s sp root d, Rel s sp -> stored_db (hp sp) root d ->
+     let r := cp_run (st_step cdata ops) (sd_load root) s in
+     snd r = CrDead \/
+     (Rel (fst r) sp /\ exists d', snd r = CrOk d' /\ load_db (sm sp) root = Some d' /\ sd_eqv d d')).
+Proof. split; [exact load_db_of_stored|exact sd_load_on_storage]. Qed.
+Print Assumptions C02_db_loads_partial.
+
+(* non-vacuity: the database created on the model of storage.rs in theories/StoredDbExample.v (2 nodes, 1 edge, an alias,
+   inline and out-of-line values, an index) is represented in its record store, and it loads — also after drop + open *)
+Example C02_db_sample :
+  stored_db (m_get sx_store) 1 sx_db /\ load_db sx_store 1 = Some sx_db /\ sx_after SReopen = sx_store.
+Proof. destruct sx_sample as (_ & _ & H1 & H2 & _ & H3 & _). auto. Qed.
+Print Assumptions C02_db_sample.
